@@ -258,6 +258,8 @@ void ezc3d::ParametersNS::Parameters::write(std::fstream &f) const
     int nBlocksToNext = int(actualPos - pos-2)/512;
     if (int(actualPos - pos-2) % 512 > 0)
         ++nBlocksToNext;
+    if (nBlocksToNext > 255)
+        throw std::range_error("The parameters do not fit in the 255 blocks a C3D file can hold");
     f.write(reinterpret_cast<const char*>(&nBlocksToNext), ezc3d::BYTE);
     f.seekg(actualPos);
 
